@@ -15,7 +15,7 @@ import (
 
 func init() {
 	vc.Register(&vc.Check{ID: "C03", Level: "model_checking", Run: run, Replay: replay, QuickSec: 150, ThoroSec: 1500,
-		Rule: "stateless exploration of the real NfcSession.DoAPDU + SecureMessaging against the independent chip-side SM: for 4 algorithms x 3 initial counters (0, mid, about to wrap) x histories of 3 exchanges over 8 command shapes x 12 response shapes, at EACH exchange the attacker's complete menu (every single-bit flip, every truncation, every single-byte deletion, every DO deletion/duplication/permutation, MACs of every shorter length incl. empty, every foreign / re-tagged (85<->87) data object injected at or substituted for every position, outer-SW replacement, replay of every earlier genuine response, parallel-session response at the same counter, unprotected data||SW and bare SW) is applied as the one deviation (D=1; D<=3 by explicit-state search with canonical state merging on small shapes) and the history continues genuinely. Oracle per exchange: error, or exactly the (data,status) the chip protected for that exchange. distinct_nontrivial = distinct (alg, ssc class, position, command shape, response shape, mutation kind, outcome) tuples; states = executions (history x deviation), transitions = exchanges run",
+		Rule:   "stateless exploration of the real NfcSession.DoAPDU + SecureMessaging against the independent chip-side SM: for 4 algorithms x 3 initial counters (0, mid, about to wrap) x histories of 3 exchanges over 8 command shapes x 12 response shapes, at EACH exchange the attacker's complete menu (every single-bit flip, every truncation, every single-byte deletion, every DO deletion/duplication/permutation, every subset of the data objects with its length field in each longer form (81/82/83/84), MACs of every shorter length incl. empty, every foreign / re-tagged (85<->87) data object injected at or substituted for every position, outer-SW replacement, replay of every earlier genuine response, parallel-session response at the same counter, unprotected data||SW and bare SW) is applied as the one deviation (D=1; D<=3 by explicit-state search with canonical state merging on small shapes) and the history continues genuinely. Oracle per exchange: error, or exactly the (data,status) the chip protected for that exchange AND only for the bytes the chip sent (an altered response must not be delivered even when the delivered data and status would be the genuine ones). distinct_nontrivial = distinct (alg, ssc class, position, command shape, response shape, mutation kind, outcome) tuples; states = executions (history x deviation), transitions = exchanges run",
 		Assume: []string{"MAC forgery (2^-64) is not searched", "chip-side SM refcrypto.SM is anchored to ICAO 9303-11 App. D.4 by SelfTest"}})
 }
 
@@ -107,12 +107,12 @@ type obs struct {
 }
 
 type runResult struct {
-	Genuine  [][]byte // genuine protected responses
-	Expected []obs    // what the chip protected per exchange
-	Got      []obs
-	LibSSC   [][]byte // terminal counter after each exchange (canonical state key for pruning)
-	ChipKey  string   // chip-side state after the run: session alive? counter
-	ChipErr  string // chip could not authenticate a genuine command (position recorded)
+	Genuine   [][]byte // genuine protected responses
+	Expected  []obs    // what the chip protected per exchange
+	Got       []obs
+	LibSSC    [][]byte // terminal counter after each exchange (canonical state key for pruning)
+	ChipKey   string   // chip-side state after the run: session alive? counter
+	ChipErr   string   // chip could not authenticate a genuine command (position recorded)
 	ChipErrAt int
 }
 
@@ -274,6 +274,52 @@ func menu(genuine []byte, earlier [][]byte, parallel []byte, plainData []byte, s
 			add("do-permute", join(p))
 		}
 	}
+	// every data object (and every subset of them) with its length field rewritten in a longer form: the value
+	// octets are untouched, only the bytes on the wire differ from what the chip sent and authenticated
+	reLen := func(d do, form int) []byte {
+		l, hl := int(d.raw[1]), 2
+		if d.raw[1] == 0x81 {
+			l, hl = int(d.raw[2]), 3
+		} else if d.raw[1] == 0x82 {
+			l, hl = int(d.raw[2])<<8|int(d.raw[3]), 4
+		}
+		var lf []byte
+		switch form {
+		case 1:
+			lf = []byte{0x81, byte(l)}
+		case 2:
+			lf = []byte{0x82, byte(l >> 8), byte(l)}
+		case 3:
+			lf = []byte{0x83, 0, byte(l >> 8), byte(l)}
+		default:
+			lf = []byte{0x84, 0, 0, byte(l >> 8), byte(l)}
+		}
+		if form == 1 && l > 255 {
+			return nil
+		}
+		return append(append([]byte{d.raw[0]}, lf...), d.raw[hl:]...)
+	}
+	for mask := 1; mask < 1<<len(dos); mask++ {
+		for form := 1; form <= 4; form++ {
+			var b []byte
+			ok := true
+			for i, d := range dos {
+				if mask>>i&1 == 1 {
+					r := reLen(d, form)
+					if r == nil {
+						ok = false
+						break
+					}
+					b = append(b, r...)
+				} else {
+					b = append(b, d.raw...)
+				}
+			}
+			if ok {
+				add("length-form", append(b, swb...))
+			}
+		}
+	}
 	for _, s := range []uint16{0x9000, 0x6A82, 0x6282, 0x6982, 0x6300} {
 		add("outer-sw", append(bytes.Clone(body), byte(s>>8), byte(s)))
 	}
@@ -393,10 +439,10 @@ func menu(genuine []byte, earlier [][]byte, parallel []byte, plainData []byte, s
 }
 
 type caseRec struct {
-	Alg   int       `json:"alg"`
-	SSC   int       `json:"ssc"`
-	Hist  []exch    `json:"hist"`
-	Devs  []devRec  `json:"devs"`
+	Alg  int      `json:"alg"`
+	SSC  int      `json:"ssc"`
+	Hist []exch   `json:"hist"`
+	Devs []devRec `json:"devs"`
 }
 type devRec struct {
 	Pos   int    `json:"pos"`
@@ -421,6 +467,14 @@ func judge(r *runResult, devs []deviation) (string, string) {
 		for _, d := range devs {
 			if d.Pos == i && d.Kind == "outer-sw" {
 				return "delivered-despite-outer-status-mismatch", fmt.Sprintf("exchange %d: outer status word %x differs from the protected status %04x, yet data/status were delivered", i, d.Bytes[len(d.Bytes)-2:], e.Status)
+			}
+		}
+		// "any modified, truncated, re-ordered ... response yields an error": a response whose bytes are not the ones
+		// the chip sent must not be delivered at all - not even when the data and status that reach the caller
+		// happen to be the genuine ones (further / repeated / re-ordered data objects, other length forms)
+		for _, d := range devs {
+			if d.Pos == i && i < len(r.Genuine) && !bytes.Equal(d.Bytes, r.Genuine[i]) && eqData(g.Data, e.Data) && g.Status == e.Status && !e.Err {
+				return "modified-response-delivered/" + d.Kind, fmt.Sprintf("exchange %d: the response was altered on the wire (%s: %x instead of %x) and was delivered without error", i, d.Kind, d.Bytes, r.Genuine[i])
 			}
 		}
 		if e.Err || !eqData(g.Data, e.Data) || g.Status != e.Status {
